@@ -10,10 +10,17 @@ Definition pair_eqb (p q : str * str) : bool := str_eqb (fst p) (fst q) && str_e
 Definition same_pairs (a b : list (str * str)) : bool :=
   forallb (fun x => existsb (pair_eqb x) b) a && forallb (fun x => existsb (pair_eqb x) a) b.
 
-(* the model dispatches on exactly the function names the code implements, each to the same resolver *)
+(* every function name the model dispatches on is still implemented by the code, by the resolver the model was written from.  The code
+   may implement MORE functions (a newly supported intrinsic is an ordinary upstream change): expressions that mention such a name are
+   outside the model's domain -- the theorems speak about MODEL_FUNCTIONS, the correspondence check skips those cases and says so in
+   the evidence (core.foreign_functions) *)
+Definition incl_set (a b : list str) : bool := forallb (fun x => mem_str x b) a.
+Definition incl_pairs (a b : list (str * str)) : bool := forallb (fun x => existsb (pair_eqb x) b) a.
 Lemma functions_table_ok :
-  same_set Functions.IMPLEMENTED_FUNCTIONS MODEL_FUNCTIONS
-  && same_pairs Functions.FUNCTION_MAPPINGS EXPECTED_KINDS
+  incl_set MODEL_FUNCTIONS Functions.IMPLEMENTED_FUNCTIONS
+  && incl_pairs EXPECTED_KINDS Functions.FUNCTION_MAPPINGS
+  && incl_set (map fst Functions.FUNCTION_MAPPINGS) Functions.IMPLEMENTED_FUNCTIONS
+  && incl_set Functions.IMPLEMENTED_FUNCTIONS (map fst Functions.FUNCTION_MAPPINGS)
   && str_eqb Functions.AWS_NOVALUE S_NOVALUE
   && str_eqb Functions.NO_ECHO_NO_DEFAULT S_NO_ECHO_NO_DEFAULT
   && str_eqb Functions.NO_ECHO_WITH_DEFAULT S_NO_ECHO_WITH_DEFAULT
